@@ -38,3 +38,46 @@ def _predecessors(eng, recv, args, node):
 
 
 REG.dep_classes['Graph'] = {'successors': _successors, 'predecessors': _predecessors}
+
+
+# ---- pandas (assumed): frames are opaque ids with a row count ----------------------------------------------------------------
+DF_ROWS = z3.Function('df_rows', I, I)
+
+
+def _new_frame(eng, rows, base='frame'):
+    f = Sym('any', z3.Int(fresh_name(base)))
+    eng.st.assume(DF_ROWS(f.t) == rows)
+    return f
+
+
+def _rows_of(eng, v):
+    from pyvc.state import Record, ListObj, PyList
+    if isinstance(v, Sym):
+        return DF_ROWS(v.t)
+    if isinstance(v, Record):      # a frame built column by column with one-element lists
+        return z3.IntVal(1 if v.items else 0)
+    raise Exception('not a frame')
+
+
+def pd_DataFrame(eng, recv, args, node):
+    from pyvc.state import ListObj, Record
+    if not args:
+        return Record({}, label='DataFrame')
+    a = args[0]
+    if isinstance(a, ListObj):          # DataFrame(list of dicts): one row per element
+        return _new_frame(eng, a.n)
+    return _new_frame(eng, z3.Int(fresh_name('rows')))
+
+
+def pd_concat(eng, recv, args, node):
+    from pyvc.state import PyList
+    frames = args[0]
+    if not isinstance(frames, PyList):
+        raise Exception('pd.concat of a non-literal list')
+    total = z3.IntVal(0)
+    for f in frames.items:
+        total = total + _rows_of(eng, f)
+    return _new_frame(eng, total)
+
+
+REG.dep_classes['module:pd'] = {'DataFrame': pd_DataFrame, 'concat': pd_concat}
